@@ -114,6 +114,20 @@ def cases(tier, rng):
         yield "random", mk(rng.random() < 0.15, "bytes=" + rng.choice([",", ", "]).join(parts), rng.choice([None, None, validators(size)[0], "x"]), size, rng.choice([1, 2, 3, 7, 64, 4096]))
 
 
+    # (f) the same response object has answered other requests before (FileResponse(path) used as an application):
+    # every ordered pair / some triples of request kinds
+    kinds = [(False, None), (False, "bytes=1-3"), (False, "bytes=0-0,2-3"), (False, "bytes=-2"), (True, None), (True, "bytes=0-0,4-5"),
+             (False, "bytes=9-"), (False, "bytes=x")]
+    for size in (6, 8):
+        for ph, pr in kinds:
+            for h, r in kinds:
+                yield "reused-object", mk(h, r, None, size, 3) + [[[ph, [pr] if pr else []]]]
+        for _ in range(40 if tier == "quick" else 400):
+            pre = [rng.choice(kinds) for _ in range(rng.randrange(2, 4))]
+            h, r = rng.choice(kinds)
+            yield "reused-object", mk(h, r, None, size, rng.choice([1, 3, 64])) + [[[ph, [pr] if pr else []] for ph, pr in pre]]
+
+
 def search_cases(tier, rng, mism):
     yield from cases("thorough", rng)
 
@@ -147,10 +161,16 @@ def _hdrs(pairs):
 def run_wsgi(case, head):
     import baize.wsgi.responses as W
     W.random_choices = lambda pop, k: list(BOUNDARY[:k])
-    _, _, rng, ifr, data, cs, etag, lm, ctype, disp, boundary, name = case
+    _, _, rng, ifr, data, cs, etag, lm, ctype, disp, boundary, name = case[:12]
     path = file_for(data)
     st = os.stat(path)
     resp = W.FileResponse(path, content_type=ctype, download_name=name or None, chunk_size=cs, stat_result=st)
+    for phead, prng in (case[12] if len(case) > 12 else []):
+        # a FileResponse object may serve as an application: it has answered other requests before this one
+        penv = util.wsgi_environ("HEAD" if phead else "GET")
+        if prng:
+            penv["HTTP_RANGE"] = prng[0]
+        util.call_wsgi(resp, penv)
     env = util.wsgi_environ("HEAD" if head else "GET")
     if rng:
         env["HTTP_RANGE"] = rng[0]
@@ -168,10 +188,14 @@ def run_wsgi(case, head):
 def run_asgi(case, head, zc):
     import baize.asgi.responses as A
     A.random_choices = lambda pop, k: list(BOUNDARY[:k])
-    _, _, rng, ifr, data, cs, etag, lm, ctype, disp, boundary, name = case
+    _, _, rng, ifr, data, cs, etag, lm, ctype, disp, boundary, name = case[:12]
     path = file_for(data)
     st = os.stat(path)
     resp = A.FileResponse(path, content_type=ctype, download_name=name or None, chunk_size=cs, stat_result=st)
+    for phead, prng in (case[12] if len(case) > 12 else []):
+        phs = [(b"range", prng[0].encode("latin-1"))] if prng else []
+        util.call_asgi(resp, util.http_scope("HEAD" if phead else "GET", headers=phs,
+                                             extensions={"http.response.zerocopysend": {}} if zc else None))
     hs = []
     if rng:
         hs.append((b"range", rng[0].encode("latin-1")))
@@ -192,6 +216,11 @@ def run_asgi(case, head, zc):
     return [int(sent[0]["status"]), _hdrs(sent[0].get("headers", [])), body, sum(finals), bool(finals and finals[-1]), bad, zcs]
 
 
+def ENCODE(case):
+    # what the same response object answered before is not the model's business: an answer is a function of the request
+    return core.enc_line(case[:12])
+
+
 def impl(case):
     head = bool(case[1])
     obs = [run_wsgi(case, head), run_asgi(case, head, False), run_asgi(case, head, True)]
@@ -210,7 +239,7 @@ _cr = re.compile(r"^bytes (\d+)-(\d+)/(\d+)$")
 
 def expected(case):
     """(status, ranges) by the property text for headers of the strict grammar, else None"""
-    _, head, rng, ifr, data, cs, etag, lm, ctype, disp, boundary, name = case
+    _, head, rng, ifr, data, cs, etag, lm, ctype, disp, boundary, name = case[:12]
     size = len(data)
     if not rng:
         return (200, None)
@@ -228,7 +257,7 @@ def expected(case):
 
 
 def check_one(case, o, which):
-    _, head, rng, ifr, data, cs, etag, lm, ctype, disp, boundary, name = case
+    _, head, rng, ifr, data, cs, etag, lm, ctype, disp, boundary, name = case[:12]
     data = data if isinstance(data, bytes) else bytes(data)
     size = len(data)
     if o[0] in ("exc", "protocol", "nostart"):
@@ -327,6 +356,10 @@ def nontrivial(case, obs):
 
 def shrink(case):
     c = list(case)
+    if len(c) > 12:
+        yield c[:12]
+        for i in range(len(c[12])):
+            yield c[:12] + [c[12][:i] + c[12][i + 1:]]
     if c[3]:
         yield c[:3] + [[]] + c[4:]
     if c[2] and c[2][0].startswith("bytes="):
